@@ -118,6 +118,10 @@ func CheckC15(tier string) int {
 		{"register-relayer-for-unknown-chain", func(w *world.World, authority string) sdk.Msg {
 			return &clienttypes.MsgRegisterRelayer{Title: "t", Description: "d", ChainName: "uchainuuu", Relayers: []string{arb.Addr.String()}, Authority: authority}
 		}, "register", nil},
+		{"register-subset-of-relayers", func(w *world.World, authority string) sdk.Msg {
+			// C's list is [relB, onlyC]: registering [onlyC] revokes relB
+			return &clienttypes.MsgRegisterRelayer{Title: "t", Description: "d", ChainName: C, Relayers: []string{onlyC.Addr.String()}, Authority: authority}
+		}, "register", nil},
 		{"set-routing-rules", func(w *world.World, authority string) sdk.Msg {
 			return &routingtypes.MsgSetRoutingRules{Title: "t", Description: "d", Rules: []string{"x,y,z", "*,*,NFT"}, Authority: authority}
 		}, "rules", nil},
@@ -258,7 +262,8 @@ func CheckC15(tier string) int {
 				}
 			}
 			// ---- header updates x signers, real transactions
-			for _, target := range []string{B, C} {
+			for _, tg := range [][2]string{{B, B}, {C, C}, {"nchainnnn", C}} { // client name, chain it follows (nchainnnn: created from C's state, nobody registered)
+				target := tg[0]
 				for _, s := range []struct {
 					name string
 					acc  world.Account
@@ -266,11 +271,12 @@ func CheckC15(tier string) int {
 					{"registered-for-" + B + "2-only", a.Accounts[3]}} {
 					w.Mount(n.st)
 					ca := w.C(A)
-					of := w.C(target)
-					latest, ok := w.ClientLatest(ca, of)
+					of := w.C(tg[1])
+					csT, ok := ca.App.TIBCKeeper.ClientKeeper.GetClientState(ca.ReadCtx(w.Now), target)
 					if !ok {
 						continue
 					}
+					latest := csT.GetLatestHeight().(clienttypes.Height)
 					of.CommitEmpty(w.Tick()) // a header the client has not seen yet
 					hdr := of.Header(of.Height(), latest)
 					msg, err := clienttypes.NewMsgUpdateClient(target, hdr, s.acc.Addr)
@@ -281,6 +287,8 @@ func CheckC15(tier string) int {
 						switch l {
 						case "register-relayer-for-existing-chain":
 							reg[B] = []string{arb.Addr.String()}
+						case "register-subset-of-relayers":
+							reg[C] = []string{onlyC.Addr.String()}
 						case "register-relayer-for-unknown-chain":
 							reg["uchainuuu"] = []string{arb.Addr.String()}
 						}
